@@ -30,8 +30,19 @@ static std::string full(DetailedPlacer &pl, const Circuit &base) {
   std::ostringstream s; s << (long long)pl.xtopo_.value() << " " << (long long)pl.ytopo_.value() << " ;" << statePl(pl, base) << " ; " << rowsDump(pl.placement_);
   return s.str();
 }
-extern "C" void coloquinte_verif_shift_hook(const void *, int, const int *, int, const int *, const int *, const long long *, const long long *, int,
-                                            const int *, const int *, const long long *, const long long *) {}
+// ---- DS cases (whole runs WITH the shift pass): one record per runShiftsOnCells call, in call order, through hook 2 of /repo:
+// "k cell*k nnodes (kind id potential)*nnodes narcs (src tgt cost flow)*narcs"   kind: 0 cell, 1 L_net, 2 U_net, 3 fixed; src/tgt = node indices
+static bool g_shiftRecOn = false;
+static std::vector<std::string> g_shiftRec;
+extern "C" void coloquinte_verif_shift_hook(const void *, int nbCells, const int *cells, int nbNodes, const int *nodeKind, const int *nodeId,
+                                            const long long *, const long long *nodePotential, int nbArcs,
+                                            const int *arcSource, const int *arcTarget, const long long *arcCost, const long long *arcFlow) {
+  if (!g_shiftRecOn) return;
+  std::ostringstream s; s << nbCells; for (int i = 0; i < nbCells; ++i) s << " " << cells[i];
+  s << " " << nbNodes; for (int i = 0; i < nbNodes; ++i) s << " " << nodeKind[i] << " " << nodeId[i] << " " << nodePotential[i];
+  s << " " << nbArcs; for (int i = 0; i < nbArcs; ++i) s << " " << arcSource[i] << " " << arcTarget[i] << " " << arcCost[i] << " " << arcFlow[i];
+  g_shiftRec.push_back(s.str());
+}
 extern "C" void coloquinte_verif_reorder_hook(int, int, long long, int, long long) {}
 
 // rows of DIFFERENT x-extent, side by side pieces at one y, empty and one-cell rows; row-high cells only; small integer
@@ -68,8 +79,91 @@ static TCircuit genStagger(SplitMix &g, const GenOpts &o) {
 // cut-offs 0 / 1 / 2 / small / large; 1 in 40: INT_MAX or just below (accepted by DetailedPlacerParameters::check; `i + nbNeighbours + 1`)
 static int pickCut(SplitMix &g) { if (g.coin(3)) return 2147483647 - (int)g.uni(0, 3) * (int)g.uni(0, 20); int k = (int)g.uni(0, 9); return k < 2 ? 0 : k < 5 ? 1 : k < 7 ? 2 : k < 9 ? (int)g.uni(3, 6) : (int)g.uni(20, 1000); }
 
+// ---- DS: "DS <rows> <cells> <nets> nbPasses lsNbNeighbours lsNbRows shiftNbRows shiftMaxNbCells reordNbRows reordMaxNbCells how"
+//      nbPasses = -1: the DEFAULT parameter set ColoquinteParameters(effort), effort in the next field.  how as for DW.
+//      result: "NOLEG" | "PARAMS p1..p7 / LEG ;placement / INIT ... / CB ... / FINAL ... [/ THROW msg] / L record / L record ..."
+//      (the records of all runShiftsOnCells calls of the run, in call order; coordinates stay small: lemon's simplex cycles near INT_MAX/2)
+// DS sub-stream "dense": 2..3 full-width rows with 24..40 narrow cells, a row set covering all rows (shiftNbRows 6..20) and
+// shiftMaxNbCells in {21, 22, 25}: the cap of overlap = min(maxNbCells / 2, 10) and a SECOND window at step maxNbCells - 10 are exercised
+static TCircuit genDenseShift(SplitMix &g) {
+  TCircuit t; long long rh = 2 * g.uni(1, 2); int ny = (int)g.uni(2, 3); long long x0 = g.uni(-10, 10), y0 = g.uni(-10, 10), W = g.uni(28, 44);
+  for (int i = 0; i < ny; ++i) t.rows.push_back({x0, x0 + W, y0 + i * rh, y0 + (i + 1) * rh, (i % 2 == 0) ? 0 : 5});
+  int n = (int)g.uni(24, 40); long long budget = W * ny * 8 / 10, used = 0;
+  for (int i = 0; i < n; ++i) { long long ww = g.uni(1, 2); if (used + ww > budget) ww = 1; used += ww; if (used > budget) { n = i; break; }
+    t.cells.push_back({x0 + g.uni(0, W), y0 + g.uni(0, ny - 1) * rh, ww, rh, 0, 0, 0, 1}); }
+  int first = (int)t.cells.size(); for (int k = 0; k < 3; ++k) t.cells.push_back({x0 + g.uni(-6, W + 6), y0 + g.uni(-4, ny * rh + 4), 1, 1, 0, 0, 1, 0});
+  int nn = (int)g.uni(n / 2, 2 * n);
+  for (int k = 0; k < nn; ++k) { int d = (int)g.uni(2, 3); std::vector<std::array<long long, 3>> net;
+    for (int j = 0; j < d; ++j) { int cc = g.coin(15) ? first + (int)g.uni(0, 2) : (int)g.uni(0, n - 1); net.push_back({cc, g.uni(0, t.cells[cc][2]), g.uni(0, t.cells[cc][3])}); }
+    t.nets.push_back(net); t.netw2.push_back(2); }
+  return t;
+}
+
+static void genShiftCases(SplitMix &g, long long count, int m) {
+  static const int mx[] = {2, 2, 3, 3, 4, 5, 6, 8, 12, 21, 25, 50, 120};
+  for (long long it = 0; it < count; ++it) {
+    if (g.coin(8)) { TCircuit t = genDenseShift(g); static const int dm[] = {21, 22, 25};
+      printf("DS %s %s 1 %d %d %d %d 1 1 %d\n", showRowsCells(t).c_str(), showNets(t).c_str(), (int)g.uni(0, 2), (int)g.uni(0, 2), (int)g.uni(6, 20), dm[g.uni(0, 2)], g.coin(25) ? 1 : 0);
+      continue; }
+    GenOpts o; o.nets = true; o.utilLo = 20; o.utilHi = 85; o.maxCells = g.coin(15) ? (int)g.uni(22, 36) : (int)g.uni(5, 22);
+    if (m & 2) o.turned = false; if (m & 16) o.polarity = false;
+    TCircuit t = g.coin(50) ? genStagger(g, o) : genCircuit(g, o);
+    int how = g.coin(25) ? 1 : 0;
+    if (g.coin(25)) { printf("DS %s %s -1 %d 0 0 0 0 0 %d\n", showRowsCells(t).c_str(), showNets(t).c_str(), (int)g.uni(1, 9), how); continue; }
+    int snr = g.coin(10) ? 1 : g.coin(8) ? (int)g.uni(7, 60) : (int)g.uni(2, 6);
+    printf("DS %s %s %d %d %d %d %d %d %d %d\n", showRowsCells(t).c_str(), showNets(t).c_str(), (int)g.uni(1, 3), (int)g.uni(0, 4), (int)g.uni(0, 4),
+           snr, mx[g.uni(0, 12)], (int)g.uni(1, 2), g.coin(70) ? 1 : (int)g.uni(2, 3), how);
+  }
+}
+
+static void runShiftCase(const std::string &line) {
+  IntReader r; r.v = vh_ints(line.substr(3));
+  g_shiftRec.clear(); g_shiftRecOn = false;
+  if (sigsetjmp(vh_jmp, 1)) { g_shiftRecOn = false; printf(" / %s\n", vh_signame()); fflush(stdout); return; }
+  try {
+    TCircuit t = readRowsCells(r); readNets(r, t);
+    Circuit c = buildCircuit(t);
+    ColoquinteParameters p(3);
+    int np = (int)r.nx();
+    if (np == -1) { p = ColoquinteParameters((int)r.nx()); for (int i = 0; i < 5; ++i) r.nx(); }
+    else {
+      p.detailed.nbPasses = np; p.detailed.localSearchNbNeighbours = (int)r.nx(); p.detailed.localSearchNbRows = (int)r.nx();
+      p.detailed.shiftNbRows = (int)r.nx(); p.detailed.shiftMaxNbCells = (int)r.nx(); p.detailed.reorderingNbRows = (int)r.nx();
+      p.detailed.reorderingMaxNbCells = (int)r.nx();
+    }
+    int how = (int)r.nx();
+    std::ostringstream out; bool first = true; DetailedPlacer *cur = nullptr; Circuit *base = nullptr;
+    out << "PARAMS " << p.detailed.nbPasses << " " << p.detailed.localSearchNbNeighbours << " " << p.detailed.localSearchNbRows << " " << p.detailed.shiftNbRows
+        << " " << p.detailed.shiftMaxNbCells << " " << p.detailed.reorderingNbRows << " " << p.detailed.reorderingMaxNbCells;
+    std::optional<PlacementCallback> cb = [&](PlacementStep) {
+      if (first) { out << " / LEG ;" << showPlacement(c); first = false; g_shiftRecOn = true; return; }
+      if (cur) out << " / CB " << full(*cur, *base); else out << " / CB ;" << showPlacement(c);
+    };
+    std::string thrown;
+    try {
+      if (how == 1) { c.placeDetailed(p, cb); out << " / FINAL ;" << showPlacement(c); }
+      else {
+        DetailedPlacer::legalize(c, p, cb);
+        p.check();
+        Circuit legalized = c; base = &legalized;
+        DetailedPlacer pl(c, p); pl.callback_ = cb; cur = &pl;
+        out << " / INIT " << full(pl, legalized);
+        pl.check(); pl.run(); pl.check(); pl.exportPlacement(c);
+        out << " / FINAL " << full(pl, legalized) << " ; " << chk(pl);
+      }
+    } catch (std::exception &e) { thrown = e.what(); }
+    g_shiftRecOn = false;
+    if (first) { printf("NOLEG\n"); fflush(stdout); return; }
+    if (!thrown.empty()) out << " / THROW " << thrown;
+    for (const std::string &rec : g_shiftRec) out << " / L " << rec;
+    printf("%s\n", out.str().c_str());
+  } catch (std::exception &ex) { g_shiftRecOn = false; printf(" / THROW-OUTER %s\n", ex.what()); }
+  fflush(stdout);
+}
+
 int main(int argc, char **argv) {
   std::string mode = argc > 1 ? argv[1] : "run";
+  if (mode == "gen" && argc > 4 && std::string(argv[2]) == "shift") { SplitMix g(strtoull(argv[3], nullptr, 10)); genShiftCases(g, atoll(argv[4]), argc > 5 ? atoi(argv[5]) : 0); return 0; }
   if (mode == "gen") {
     SplitMix g(strtoull(argv[3], nullptr, 10)); long long count = atoll(argv[4]); int m = argc > 5 ? atoi(argv[5]) : 0;
     for (long long it = 0; it < count; ++it) {
@@ -96,6 +190,7 @@ int main(int argc, char **argv) {
   std::string line;
   while (std::getline(std::cin, line)) {
     if (line.size() < 3) { printf("\n"); continue; }
+    if (line[1] == 'S') { runShiftCase(line); continue; }
     bool whole = line[1] == 'W';
     IntReader r; r.v = vh_ints(line.substr(3));
     if (sigsetjmp(vh_jmp, 1)) { printf(" / %s\n", vh_signame()); fflush(stdout); continue; }
